@@ -306,7 +306,7 @@ Definition setvar_apply (s : st) (k value : bytes) : st :=
       let arith (n : Z) :=
         match cur_int (st_get s k) with
         | None => s
-        | Some cur => st_set s k (TInt (if c =? 43 then cur + n else cur - n)%Z)
+        | Some cur => st_set s k (TInt (if c =? 43 then (cur + n)%Z else (cur - n)%Z))
         end in
       match rest with
       | [] => arith 0%Z
@@ -462,15 +462,18 @@ Definition act_writes_cap (a : action) : bool := match a with ASetvar k _ => is_
 Definition captures (lk : link) : bool :=
   l_capture lk && match l_op lk with ORxDot | ORxLit _ => true | _ => false end.
 
-(* [tm]: MATCHED_VAR / MATCHED_VAR_NAME may depend on the order; [tc]: TX.0-9 may *)
-Definition link_ok (tm tc : bool) (lk : link) : bool :=
-  forallb (fun t => (negb (reads_mv_target t) || negb tm) && (negb (reads_cap_target t) || negb tc)) (l_targets lk)
-  && forallb (fun a => negb (act_writes_cap a)
-                       && (negb (act_reads_mv a) || negb (multi_link lk))
-                       && (negb (act_reads_cap a) || (negb tc && negb (multi_link lk && captures lk)))) (l_acts lk).
-
 Definition tm_after (tm : bool) (lk : link) : bool := tm || multi_link lk.
 Definition tc_after (tc : bool) (lk : link) : bool := tc || (multi_link lk && captures lk).
+
+(* [tm]: MATCHED_VAR / MATCHED_VAR_NAME may depend on the order; [tc]: TX.0-9 may.
+   Targets are read while the link is being evaluated (a later target of the same link sees what
+   the earlier ones did), so they are checked against the flags AFTER the link. *)
+Definition link_ok (tm tc : bool) (lk : link) : bool :=
+  forallb (fun t => (negb (reads_mv_target t) || negb (tm_after tm lk))
+                    && (negb (reads_cap_target t) || negb (tc_after tc lk))) (l_targets lk)
+  && forallb (fun a => negb (act_writes_cap a)
+                       && (negb (act_reads_mv a) || negb (multi_link lk))
+                       && (negb (act_reads_cap a) || negb (tc_after tc lk))) (l_acts lk).
 
 (* chain links: when a link is evaluated the previous one has matched, and a link without a
    multi-valued target has then written MATCHED_VAR deterministically *)
